@@ -13,6 +13,7 @@
   the oracle. States carry their own `time_step` because the code pairs occupancies with states through it.
 -/
 import CRModel.Basic
+import CRModel.Interval
 namespace CR.Occ
 
 /-- Time stamp of a stored occupancy: an exact step or a closed interval of steps. -/
@@ -130,5 +131,29 @@ def statesAt (obs : List (Nat × Obst)) (t : Int) : List (Nat × StRef) :=
 def byRoleType (obs : List (Nat × Obst × Option Nat)) (role : Option Role) (ty : Option Nat) : List Nat :=
   obs.filterMap fun (i, o, oty) =>
     if (role = none ∨ role = some o.role) ∧ (ty = none ∨ (ty.isSome ∧ ty = oty)) then some i else none
+
+/-- `contained_in_interval` of `obstacles_by_position_intervals`, applied to what the obstacle offers as its centre
+    (`none`: the shape has no `center` attribute — a `ShapeGroup` — and the obstacle is listed unconditionally). -/
+def centreIn (ix iy : CR.Iv.I) : Option (Rat × Rat) → Bool
+  | none => true
+  | some c => CR.Iv.contains ix c.1 && CR.Iv.contains iy c.2
+
+/-- One of the four loops of `obstacles_by_position_intervals`: the obstacles of role `r` (when `r` was requested), in
+    scenario order; dynamic and phantom obstacles need an occupancy at `t`. -/
+def posPass (obs : List (Nat × Obst)) (ctr : Nat → Option (Rat × Rat)) (ix iy : CR.Iv.I) (roles : List Role) (t : Int)
+    (r : Role) : List Nat :=
+  if r ∈ roles then
+    obs.filterMap fun x =>
+      if x.2.role = r ∧ ((r = .dynamic ∨ r = .phantom) → (occupancyAt x.2 t).isSome) ∧ centreIn ix iy (ctr x.1) then some x.1
+      else none
+  else []
+
+/-- `Scenario.obstacles_by_position_intervals([ix, iy], roles, t)` (scenario/scenario.py:1131-1184).  `ctr i` is the centre
+    obstacle `i` offers at `t`: of its occupancy's shape (dynamic, phantom), its initial position (static), of its
+    shape (environment).  Four passes in this order: dynamic, phantom, static, environment. -/
+def byPosition (obs : List (Nat × Obst)) (ctr : Nat → Option (Rat × Rat)) (ix iy : CR.Iv.I)
+    (roles : List Role) (t : Int) : List Nat :=
+  posPass obs ctr ix iy roles t .dynamic ++ posPass obs ctr ix iy roles t .phantom ++
+    posPass obs ctr ix iy roles t .static ++ posPass obs ctr ix iy roles t .environment
 
 end CR.Occ
